@@ -136,7 +136,17 @@ ArgClass(np, na, variadic) ==
   ELSE IF np = 1 THEN (IF na <= 1 THEN 0 ELSE 1)       \* F() is one empty argument
   ELSE (IF na = np THEN 0 ELSE 1)
 
+(* Escape alphabet: every byte 1..255 directly after a backslash, in a character constant and in a string literal,  *)
+(* with every encoding prefix.  C11 6.4.4.4: simple escapes ' " ? \ a b f n r t v, octal digits, x followed by hex  *)
+(* digits are valid (class 0); anything else is outside the grammar and left open (class 2: diagnosed or accepted as *)
+(* an extension) - but the scanner (scan.c:escape) and the decoder (expr.c:decodechar) must agree, whatever they do. *)
+(* n = byte + 256 * kind + 512 * prefix, kind 0 = character constant, 1 = string literal, prefix 0..4 = none L u8 u U *)
+SimpleEsc == {39, 34, 63, 92, 97, 98, 102, 110, 114, 116, 118}
+EscClass(b) == IF b \in SimpleEsc \/ b \in 48..55 \/ b = 120 THEN 0 ELSE 2
+EscCases == {[fam |-> "escape", n |-> b + 256 * k + 512 * p, class |-> EscClass(b), held |-> -1] : b \in 1..255, k \in 0..1, p \in 0..4}
+
 Cases ==
+       EscCases \cup
        {[fam |-> f, n |-> n, class |-> 0, held |-> -1] : f \in {"ident", "string", "ppnumber", "floatconst", "comment", "escstring"}, n \in {k \in TokLens : k >= 1}}
   \cup {[fam |-> f, n |-> n, class |-> 0, held |-> -1] : f \in {"macrobody", "macrochain", "macroargtoks", "callargs", "strconcat", "peeknl", "initlist", "params"}, n \in Counts}
   \cup {[fam |-> "stringize", n |-> n, class |-> 0, held |-> -1] : n \in {k \in TokLens : k >= 1 /\ k \notin BigLens}}
